@@ -285,8 +285,9 @@ def read_env(src, expr, skip_envs=(), tolerance=0, mode=MODE_NON_MATH):
     contents = []
     while src.hasNext():
         if src.peek().category == TC.Escape:
+            # `\end` takes exactly one argument: do not read what follows it
             name, args = make_read_peek(read_command)(
-                src, skip=1, tolerance=tolerance, mode=mode)
+                src, 1, 0, skip=1, tolerance=tolerance, mode=mode)
             if name == 'end':
                 break
         contents.append(read_expr(src, skip_envs=skip_envs, tolerance=tolerance, mode=mode))
@@ -294,10 +295,8 @@ def read_env(src, expr, skip_envs=(), tolerance=0, mode=MODE_NON_MATH):
     if error and tolerance == 0:
         unclosed_env_handler(src, expr, src.peek((0, 6)))
     elif not error:
-        # consume `\end` and its name group, however many tokens they span
-        src.forward(2)
-        read_spacer(src)
-        read_arg(src, next(src), tolerance=tolerance, mode=mode)
+        # consume `\end` and its name argument, however many tokens they span
+        read_command(src, 1, 0, skip=1, tolerance=tolerance, mode=mode)
     expr.append(*contents)
     return expr
 
